@@ -23,10 +23,17 @@ Fixpoint no_streams_list (l : list obj) : Prop :=
 
 (* an indirect object of a well-formed file: a stream whose dictionary holds no stream, or a direct object
    holding no stream *)
-(* the crypt filter of a stream, if it names one, is the stream's only filter, given as a name (lopdf does not read
-   DecodeParms arrays); and crypt filters are a feature of V 4 and 5 *)
+(* the Filter entry of a stream is well formed (7.3.8.2, Table 5): a name, or an array of names; a stream whose only
+   filter is Crypt, given as a name, has its decode parameters as a dictionary, not as an array; and crypt filters are
+   a feature of V 4 and 5 *)
+Definition all_names (l : list obj) : Prop := Forall (fun o => match o with OName _ => True | _ => False end) l.
 Definition stream_ok (ip : iparams) (sd : dict) : Prop :=
-  (match dict_get sd iK_Filter with Some (OArr l) => index_of_name iN_Crypt l = None | _ => True end) /\
+  (match dict_get sd iK_Filter with
+   | Some (OArr l) => all_names l
+   | Some (OName f) => bytes_eqb f iN_Crypt = true ->
+                       match dict_get sd iK_DecodeParms with Some (OArr _) => False | _ => True end
+   | _ => True
+   end) /\
   ((ip_V ip <? 4)%Z = true -> crypt_filter_name sd = None).
 
 Definition indirect_ok (ip : iparams) (o : obj) : Prop :=
